@@ -81,6 +81,10 @@ CLAIMED = {
         text="The real Handle runs on a real bufio.Reader (interpreted from source, so the reader's buffering is explored) over a scripted reader whose every call is, nondeterministically, a chunk of symbolic bytes (possibly after a pause longer than the tolerance), nothing, EOF, an i/o timeout or another error, with the real framing goroutine running under the engine's scheduler: what reaches the message channel is byte for byte what the script supplied, no message is empty, the output is closed, another read error stops the run at once, zero tolerance stops at the first interruption, and with a tolerance a single interruption never ends the run.",
         note="clock: time advances by sleeps and declared pauses plus a bounded jitter (stated bound); schedules: lazy and round-robin switching at synchronisation operations; 3 (thorough 4) reader calls.",
         ref="DESIGN.md section 6, C13"),
+    "C15": dict(
+        text="Self-composition over symbolic frames of eight kinds at both log levels: the type, raw bytes, error text and readable text (MSM time lines excluded) produced by a fresh handler equal those produced by a handler that has already processed other frames and the same frame; displaying a message three times gives identical text and never changes its raw bytes or error text; displaying one by-value copy of a delivered message leaves the other copy's fields and raw bytes untouched and both display the same.",
+        note="the histories half of the quantifier; the concurrent half (parallel handlers, race detector) is outside what an interleaving model at synchronisation granularity can see and is stated as outside the claim.",
+        ref="DESIGN.md section 6, C15"),
     "C16": dict(
         text="The real start(cfg) of rtcmlogger runs with its copying loop on a scripted standard input (0..5 symbolic bytes in reads of 1..3 bytes) and its recorder goroutine on the daily logger, under the lazy, round-robin and one-preemption schedules: standard output is identical to the input, and at the instant start returns - where the program exits - the day's record already holds exactly the input; later overwrites of the read buffer cannot change a block already handed to the recorder (checked through aliasing in the symbolic heap).",
         note="found and natively confirmed the lost last block on the original tree (fixed by 575b6bc; the real binary lost it in 100 of 100 runs on a two-block input); blocks longer than 3 bytes and read errors are outside the bound.",
